@@ -21,9 +21,9 @@ def parseRole (r arg : Nat) : LeafRole :=
 def parseProg (j : Json) : NProg :=
   { scopes := (arr j "scopes").map fun s =>
       match asArr s with
-      | [k, ps, st, co, su, en, _, nm] =>
+      | [k, ps, st, co, su, en, _, nm, ss] =>
         { kind := parseKind (asNat k), pscope := asNat ps, start := parsePos st, colon := parsePos co,
-          suite := parsePos su, stop := parsePos en, name := asStr nm }
+          suite := parsePos su, stop := parsePos en, name := asStr nm, stmt := parsePos ss }
       | _ => { kind := .module, pscope := 0, start := ⟨1, 0⟩, colon := ⟨1, 0⟩, suite := ⟨1, 0⟩,
                stop := ⟨1, 0⟩, name := "" },
     leaves := (arr j "leaves").map fun l =>
@@ -66,6 +66,12 @@ def handle (j : Json) : Json :=
       ("defs", jarr (defs.map jnat)),
       ("chain", jarr (defs.map fun i => jarr ((parentChain p i).map jnat))),
       ("chainhyp", jarr (defs.map fun i => jbool (ChainHyp p i))),
+      ("nolambdahyp", jarr (defs.map fun i => jbool (NoLambdaHyp p i))),
+      ("chainspec", jarr (defs.map fun i =>
+        match p.leaves[i]? with
+        | some l => jarr ((defChain p p.fuel (chainStart p l) ++ [0]).map jnat)
+        | none => .null)),
+      ("lambdas", jarr (((List.range p.scopes.length).filter fun s => !notLambda p s).map jnat)),
       ("full", jarr (defs.map fun i => jnames (fullNameOfLeaf mp p i))),
       ("scopefull", jarr ((List.range p.scopes.length).map fun s => jnames (fullNameOfScope mp p s))),
       ("qualname", jarr ((List.range p.scopes.length).map fun s => jstr (".".intercalate (qualnameOf p s)))),
